@@ -149,9 +149,16 @@ def check_case(ctx, case):
                 inside.append(e)
         want = inside
         with workdir() as d:
-            p = os.path.join(d, "cat.csv")
-            files.write_csep_csv(p, events, catalog_id=3, frac="us")
-            o = call(lambda: csep.load_catalog(p, filters=list(strs), region=region, apply_filters=True))
+            if case.get("via_json"):
+                # the region and the statements travel inside a JSON catalog file; apply_filters=True applies both on loading
+                p = os.path.join(d, "cat.json")
+                CSEPCatalog(data=list(events), catalog_id=3, name="c", region=region, filters=list(strs)).write_json(p)
+                o = call(lambda: csep.load_catalog(p, apply_filters=True))
+                ctx.count("load_catalog_json_with_region_and_filters")
+            else:
+                p = os.path.join(d, "cat.csv")
+                files.write_csep_csv(p, events, catalog_id=3, frac="us")
+                o = call(lambda: csep.load_catalog(p, filters=list(strs), region=region, apply_filters=True))
     else:
         raise ValueError(plan)
     if not o.ok:
@@ -284,6 +291,7 @@ def cases(draw, max_events=40):
     if plan == "load_catalog" and draw(st.booleans()):
         # with a region: place the events relative to a generated lattice
         case["plan"] = "load_catalog_region"
+        case["via_json"] = draw(st.booleans())
         rc = draw(lattice.lattices(max_n=4, flags=False))
         rc["dh_mode"] = "decimal"
         case["region"] = rc
